@@ -79,6 +79,14 @@ def execute(group):
     return lines
 
 
+def execute_seq(groups):
+    """Several theories one after the other in ONE process (fixed schemes with DEscending, then ascending NfFF)."""
+    out = []
+    for g in groups:
+        out.extend(execute(g))
+    return out
+
+
 def run(ctx):
     q = ctx.quick
     ctx.cov["rule"] = ("(theory, matching scale, position class) triples enumerated by TLC; all probes of a theory in one real "
@@ -100,6 +108,27 @@ def run(ctx):
     ctx.cov["obligations_emitted"] = len(obls)
     jobs = [dict(obls=v) for v in groups.values()]
     res = ctx.pmap(execute, jobs)
+    # history at the process level: the fixed-flavour theories of one (masses, ratios) point in one fresh process, the larger NfFF
+    # FIRST, then back up (whatever compatibility.update or the runner keep at module level must not leak into the next theory)
+    em2 = dict(FNSS={"FFNS", "FFN0"}, NFFFS={3, 4, 5}, MASSES={"a"}, KS={"one"} if q else {"one", "mix"})
+    obls2 = [o for o in ctx.tlc_emit("Emit_C06", common.cfg_text(em2, spec=None), name="Emit_C06_seq") if o["valid"]]
+    import copy
+    seqs = {}
+    for o in obls2:
+        seqs.setdefault((o["fns"], repr(o["m"]), repr(o["k"])), {}).setdefault(o["nfff"], []).append(o)
+    sjobs = []
+    for (fns, _m, _k), bynf in seqs.items():
+        order = sorted(bynf, reverse=True) + sorted(bynf)[1:]
+        grp = []
+        for step, nf in enumerate(order):
+            g = copy.deepcopy(bynf[nf])
+            for o in g:
+                o["oid"] = common.oid_of("C06", {k: o[k] for k in ("fns", "nfff", "m", "k", "i", "cls")}) + f"~seq{step}"
+            grp.append(dict(obls=g))
+            obls.extend(g)
+        sjobs.append(grp)
+    res += ctx.pmap(execute_seq, sjobs, fresh=True)
+    ctx.cov["process_level_sequences"] = [[g["obls"][0]["nfff"] for g in grp] for grp in sjobs][:4]
     lines = [ln for r in res for ln in r]
     for ln in lines:
         ctx.count(1, nontrivial_key=ln["oid"] if (ln["cls"] in ("pred", "at", "succ") or ln["fns"] != "ZM-VFNS") else None)
